@@ -11,11 +11,16 @@ REQUIRED = {t: "oracle:C15.pairs==shadow oracle:C15.auto-channel-unused oracle:C
 
 def plan(tier, seed):
     if tier == "quick":
-        return [{"kind": "c15", "shard": s, "n": 700} for s in range(3)]
-    return [{"kind": "c15", "shard": s, "n": 14000} for s in range(14)]
+        return [{"kind": "c15", "shard": s, "n": 1200} for s in range(4)] + [{"kind": "repo-tests"}]
+    return [{"kind": "c15", "shard": s, "n": 14000} for s in range(14)] + [{"kind": "repo-tests"}]
 
 
 def run_shard(desc, rec):
+    if desc["kind"] == "repo-tests":
+        from ..drivers import repotests
+        return repotests.run_shard(desc, rec)
+    from ..monitors import contracts
+    contracts.install(rec)   # auxiliary class invariants (icontract), record-only
     drv.run_shard(desc, rec)
 
 
